@@ -243,3 +243,33 @@ def oracle_geometry_full_span(R, tier, seed):
         if np.abs(cm_b - cm_m).max() > 1e-8 * max(np.abs(cm_a).max(), 1e-6): bad["CM"] = float(np.abs(cm_b - cm_m).max())
         if bad: _fail(O2, "C07:Geometry+AeroPoint:%s-full-span-mirror-pair" % sorted(bad)[0], {"alpha": alpha, "beta": beta, "seed": seed, "rep": rep}, errors=bad, mesh=a.tolist())
         else: O2["ok"] += 1
+
+
+def oracle_element_mirror(R, tier, seed):
+    """the hypothesis of C07_structure_assembled_system_mirror_covariant on the implementation: the transformed element
+    matrix of the mirrored element ne-1-e equals that of element e with its two nodes exchanged and the signs
+    (+,-,+,-,+,-) of the reflected DOFs applied to rows and columns; tube and wing box, swept / dihedral beams"""
+    O = R.oracle("SpatialBeamAlone.element-matrices-mirror")
+    rng = gen.stable_rng(seed, "c07elem")
+    sg = np.array([1, -1, 1, -1, 1, -1] * 2, float); sw = np.array(list(range(6, 12)) + list(range(0, 6)))
+    for it in range(4 if tier == "quick" else 12):
+        model = "tube" if it % 2 == 0 else "wingbox"
+        kind = ("full", "left")[it % 4 // 2]
+        ny = int(rng.choice([3, 5])) if kind == "full" else int(rng.choice([2, 3, 4]))
+        m = gen.rand_mesh(rng, 2, ny, kind, offset=False); mm = mirror_mesh(m)
+        mk = gen.tube_surface if model == "tube" else gen.wingbox_surface
+        extra = dict(struct_weight_relief=False, distributed_fuel_weight=False, t_over_c_cp=np.array([0.12, 0.12]), twist_cp=np.zeros(2))
+        if model == "tube": extra.update(thickness_cp=np.array([0.02, 0.02, 0.02]))
+        else: extra.update(spar_thickness_cp=np.array([0.006, 0.006]), skin_thickness_cp=np.array([0.01, 0.01]))
+        loads = np.zeros((ny, 6))
+        pa = structs.run(structs.build_struct(mk(m, symmetry=(kind != "full"), **extra), loads))
+        pb = structs.run(structs.build_struct(mk(mm, symmetry=(kind != "full"), **extra), loads))
+        Ka = structs.g(pa, "wing.local_stiff_transformed"); Kb = structs.g(pb, "wing.local_stiff_transformed")
+        ne = Ka.shape[0]; err = 0.0
+        for e in range(ne):
+            ref = (sg[:, None] * sg[None, :]) * Ka[e][np.ix_(sw, sw)]
+            err = max(err, float(np.abs(Kb[ne - 1 - e] - ref).max() / np.abs(ref).max()))
+        O["cases"] += 1; O["worst"] = max(O["worst"], err)
+        if err > 1e-10: _fail(O, "C07:LocalStiffTransformed:element-matrix-not-mirror-covariant", {"model": model, "kind": kind, "ny": ny, "seed": seed, "it": it}, rel_err=err, mesh=m.tolist())
+        else: O["ok"] += 1
+        R.mark("c07elem", it)
